@@ -141,7 +141,7 @@ impl Scenario for C11 {
     }
 
     fn rule(&self) -> String {
-        "Each run (history): one of the 18 serialisable generator types (IsaacRng/Isaac64Rng over-weighted), any seeding route, native pre-advance 0..=block_len+2, a history of 1..20 next_u32/next_u64/fill_bytes/jump ops with up to 3 destructive crash points (live generator := restore(snapshot(live)), so later snapshots are restores of restores). The crash point is ENUMERATED: after the pre-advance and after every operation the live generator is serialised (bincode or serde_json), the original is kept, and a copy restored from the bytes alone runs the whole remaining history plus a 2-block drain; the twin that never serialised, the original and every restored copy must agree value for value, and restored == original where == exists. Each such (history, crash point) pair is one evaluation. (sweep): for one seed, IsaacRng at every index 0..=256 and Isaac64Rng at every (index, half_used) is snapshotted, restored and drained - a complete sweep of the durable buffer states. distinct_nontrivial = distinct (type, format, buffer index at the crash point, half flag) signatures.".into()
+        "Each run (history): one of the 18 serialisable generator types (IsaacRng/Isaac64Rng over-weighted), any seeding route, native pre-advance 0..=block_len+2, a history of 1..20 next_u32/next_u64/fill_bytes/jump ops with up to 3 destructive crash points (live generator := restore(snapshot(live)), so later snapshots are restores of restores). The crash point is ENUMERATED: after the pre-advance and after every operation the live generator is serialised (bincode or serde_json), the original is kept, and a copy restored from the bytes alone runs the whole remaining history plus a 3-block drain; the twin that never serialised, the original and every restored copy must agree value for value, and restored == original where == exists. Each such (history, crash point) pair is one evaluation. (sweep): for one seed, IsaacRng at every index 0..=256 and Isaac64Rng at every (index, half_used) is snapshotted, restored and drained - a complete sweep of the durable buffer states. distinct_nontrivial = distinct (type, format, buffer index at the crash point, half flag) signatures.".into()
     }
     fn assumptions(&self) -> Vec<String> {
         vec![
@@ -171,7 +171,9 @@ impl C11 {
         // aux[1] (narrowed replay): check only this crash point
         let only: Option<usize> = spec.aux.get(1).map(|x| *x as usize);
         let native = if kind.word_bits() == 32 { Call::U32 } else { Call::U64 };
-        let drain = (2 * kind.block_words()).max(4);
+        // three blocks: a restored core whose hidden counters are off only shows from the second
+        // refill after the restore on
+        let drain = (3 * kind.block_words()).max(4);
 
         // the twin never serialises: expected outputs of the whole history and the drain
         let mut twin = build(spec, false).map_err(E::End)?;
@@ -353,7 +355,7 @@ impl C11 {
                     Err(e) => return Err(e),
                 };
                 // probe sensitive to index and half flag, then a drain of more than two blocks
-                for j in 0..530 {
+                for j in 0..800 {
                     let call = match j {
                         0 => Call::U32,
                         1 => Call::Fill(3),
